@@ -441,9 +441,29 @@ class Gen:
         return args
 
     # ---- nodes
+    def cross_twin(self, n):
+        """twin mode: copy a construct from one argument group into a later argument group or into the
+        node's own body, so that a node has an identical twin in an earlier container of the same parent"""
+        if not self.p.twin or not n.args or not self.chance(0.35):
+            return n
+        srcs = [(k, c) for k, a in enumerate(n.args) if a.kind != 'cmdarg' for c in a.body if c.kind not in ('comment',)]
+        if not srcs:
+            return n
+        k, c = srcs[self.int(0, len(srcs) - 1)]
+        later = [a for a in n.args[k + 1:] if a.kind == '{']
+        dest = None
+        if n.body is not None and n.kind != 'verb' and (not later or self.chance(0.5)):
+            dest = n.body
+        elif later:
+            dest = later[self.int(0, len(later) - 1)].body
+        if dest is not None:
+            dest.insert(self.int(0, len(dest)), c.copy())
+            self.count('twin:cross-container-copy')
+        return n
+
     def cmd(self, ctx, depth):
         name = self.pick(MATH_CMD_NAMES if ctx.math and not self.p.twin else self.cmds)
-        return Node('cmd', name=name, args=self.args_generic(ctx, depth))
+        return self.cross_twin(Node('cmd', name=name, args=self.args_generic(ctx, depth)))
 
     def sigcmd(self, ctx, depth):
         k = self.int(0, 5)
@@ -509,7 +529,7 @@ class Gen:
             if all(a.kind == '{' for a in args):
                 for a in args:
                     a.pre = self.pick(ATTACH_SEPS)
-        return n
+        return self.cross_twin(n)
 
     def lst(self, ctx, depth):
         name = self.pick(LIST_ENVS)
@@ -526,7 +546,7 @@ class Gen:
             args = []
             if self.chance(0.3):
                 args.append(Arg('[', self.body(ctx.derive(bracket=True, hostile_ok=False), depth - 1, small=True)))
-            body.append(Node('item', args=args, body=self.body(ictx, depth - 1)))
+            body.append(self.cross_twin(Node('item', args=args, body=self.body(ictx, depth - 1))))
         return Node('list', name=name, body=body)
 
     def group(self, ctx, depth):
@@ -774,6 +794,9 @@ PROFILES = {
     'spaced': Profile(depth=3, sibs=4, spaced=True),
     'small': Profile(depth=2, sibs=3),
     'smalltwin': Profile(depth=2, sibs=3, twin=True),
+    'tinytwin': Profile(depth=2, sibs=2, twin=True),
+    'smalllists': Profile(depth=2, sibs=3, twin=True, lists=3.0),
+    'smalldefs': Profile(depth=2, sibs=3, twin=True, defs=3.0),
     'strict': Profile(depth=3, sibs=4, twin=True, strict_sep=True),
     'nomath': Profile(depth=3, sibs=4, math=0.0, verb=0.0, lists=0.0, plain=True),
     'ws': Profile(depth=3, sibs=5, ws=0.45),
